@@ -3,6 +3,7 @@ real library -> TLC trace validation -> verdicts/evidence."""
 import json
 import os
 import subprocess
+import time
 
 from . import core
 from .core import Verdicts, log, run_tlc, run_harness, workdir, write_ndjson, read_ndjson, \
@@ -50,11 +51,65 @@ def drive(pid, fam, seed, n):
     return read_ndjson(sp)
 
 
+CHUNK_BYTES = 10 * 1024 * 1024
+
+
 def validate(pid, module, trace_path, workers=12, timeout=900, env=None, cfg=None):
-    e = {"TRACE": trace_path}
-    if env:
-        e.update(env)
-    return run_tlc(pid, module, cfg=cfg, env=e, workers=workers, timeout=timeout)
+    """Run a Trace_* module over a recorded trace.  Large traces are validated in chunks (TLC keeps
+    the whole deserialised file in memory); record indices in the reported tuples (always their
+    second component) are shifted back to indices into the whole file."""
+    chunks = []
+    cur = []
+    size = 0
+    base = 0
+    n = 0
+    with open(trace_path) as f:
+        for ln in f:
+            cur.append(ln)
+            size += len(ln)
+            n += 1
+            if size >= CHUNK_BYTES:
+                chunks.append((base, cur))
+                base = n
+                cur = []
+                size = 0
+    if cur or not chunks:
+        chunks.append((base, cur))
+    merged = core.TlcResult()
+    t0 = time.time()
+    for ci, (off, lines) in enumerate(chunks):
+        if len(chunks) == 1:
+            path = trace_path
+        else:
+            path = trace_path + ".chunk%d" % ci
+            with open(path, "w") as f:
+                f.writelines(lines)
+        if not lines:
+            continue
+        e = {"TRACE": path}
+        if env:
+            e.update(env)
+        left = max(60, timeout - (time.time() - t0))
+        r = run_tlc(pid, module, cfg=cfg, env=e, workers=workers, timeout=left)
+        if len(chunks) > 1:
+            os.remove(path)
+        merged.generated += r.generated
+        merged.distinct += r.distinct
+        merged.wall += r.wall
+        if off == 0:
+            merged.printed += r.printed
+        else:
+            for ln in r.printed:
+                if ln.startswith("<<"):
+                    try:
+                        tup = core.parse_tla(ln)
+                        tup[1] += off
+                        merged.printed.append(core.to_tla(tup))
+                        continue
+                    except Exception:
+                        pass
+                merged.printed.append(ln)
+    return merged
 
 
 # ---------------------------------------------------------------------------------------------
@@ -146,4 +201,211 @@ def c01(tier, seed):
     v.traces = len(scs)
     generic_indexed(v, t, scs, lambda sc: {"fam": "cov"})
     v.samples = [scs[0], scs[len(scs) // 2], scs[-1]]
+    return v.finish()
+
+
+# ---------------------------------------------------------------------------------------------
+# Canvas machine: shared pipeline for C02, C03, C05, C06, C10, C11, C18
+# ---------------------------------------------------------------------------------------------
+CANVAS_TAGS = ["C02", "C03", "C06L", "C06D", "C11T", "C02N", "C07", "C10", "C10I", "C18"]
+
+
+def canvas_sig(sc, tag, op):
+    """Structural signature of a failing canvas event, for matching known findings."""
+    calls = sc.get("calls", [])
+    ops = [c["op"] for c in calls]
+    return {"fam": "canvas", "tag": tag, "op": op}
+
+
+def canvas_validate(pid, v, scs, name, count_tags, workers=12, timeout=3000, only_panic_ops=None):
+    """Execute canvas scenarios, validate with Trace_Canvas, file tagged failures in count_tags
+    as violations of `pid`.  Returns dict tag -> list of (scenario, tuple)."""
+    tp = execute(pid, name, scs)
+    t = validate(pid, "Trace_Canvas", tp, workers=workers, timeout=timeout)
+    v.add_tlc(t)
+    found = {}
+    for tag in CANVAS_TAGS:
+        for tup in t.tuples(tag):
+            found.setdefault(tag, []).append(tup)
+            if tag in count_tags and (tag != "C07" or only_panic_ops is None or tup[4] in only_panic_ops):
+                sc = scs[tup[1] - 1]
+                v.violation(sc, {"tag": tag, "target": tup[2], "call_index": tup[3], "op": tup[4],
+                                 "pixels": tup[5] if len(tup) > 5 else None,
+                                 "sig": canvas_sig(sc, tag, tup[4])})
+    n02 = n03 = 0
+    for tup in t.tuples("SUM"):
+        n02 += tup[3]
+        n03 += tup[4]
+    v.extra["pixels_checked_unchanged"] = v.extra.get("pixels_checked_unchanged", 0) + n02
+    v.extra["pixels_checked_formula"] = v.extra.get("pixels_checked_formula", 0) + n03
+    v.inconclusive += len(t.tuples("INC"))
+    # non-trivial: the main target's pixels changed at some event
+    recs = read_ndjson(tp)
+    for i, rec in enumerate(recs):
+        if rec.get("outcome") == "timeout" or "targets" not in rec:
+            continue
+        main = rec["targets"][0]
+        prev = main["init"]
+        ch = False
+        for e in main["events"]:
+            if "after" in e and e["after"] != prev:
+                ch = True
+            prev = e.get("after", prev)
+        if ch:
+            v.nontrivial.add(scs[i]["id"] if "id" in scs[i] else i)
+    v.evaluations += len(scs)
+    v.traces += sum(len(r.get("targets", [])) for r in recs)
+    return found
+
+
+def canvas_gen(pid, v, focus, D, ndraw, draws=1, initk="distinct", simulate=None, depth=None, seed=None, salt=0):
+    env = {"FOCUS": focus, "D": D, "NDRAW": ndraw, "DRAWS": draws, "INITK": initk, "SALT": salt,
+           "EMITFULL": 1 if simulate else 0}
+    g, scs = gen_scenarios(pid, "Gen_Canvas", env=env, simulate=simulate, depth=depth, seed=seed,
+                           workers=1 if simulate else 8, timeout=1500)
+    v.add_tlc(g)
+    return scs
+
+
+@prop("C02")
+def c02(tier, seed):
+    v = Verdicts("C02", tier, seed)
+    th = tier == "thorough"
+    v.rule = ("Gen_Canvas: every properly nested set-up prefix (clip rects/paths, layer, lattice transforms) to depth D "
+              "followed by drawing calls drawn from shape x source x 28 modes x alpha x AA; simulation adds deeper "
+              "histories; destination pixels pairwise distinct, some not premultiplied; non-trivial = the visible "
+              "surface changed; distinct by scenario id")
+    v.trusted = ["harness interpreter and projection (harness/src/canvas.rs)", "Coverage.tla for MayChange of lattice shapes"]
+    scs = canvas_gen("C02", v, "frame", 2, 28 if th else 10, salt=seed)
+    scs += canvas_gen("C02", v, "frame", 3, 4, draws=2, simulate=4000 if th else 600, depth=6, seed=seed, salt=seed)
+    scs += canvas_gen("C02", v, "clip", 3, 3, simulate=2000 if th else 300, depth=5, seed=seed + 1, salt=seed)
+    v.exhaustive = True
+    canvas_validate("C02", v, scs, "all", {"C02", "C02N", "C06L"})
+    v.samples = [scs[0], scs[-1]]
+    return v.finish()
+
+
+@prop("C03")
+def c03(tier, seed):
+    v = Verdicts("C03", tier, seed)
+    th = tier == "thorough"
+    v.rule = ("as C02 with premultiplied destinations; every pixel that may change is compared with the allowed set "
+              "Composite(mode, source, previous, coverage, clip) of Pixel.tla; non-trivial = the visible surface changed")
+    v.trusted = ["harness interpreter (harness/src/canvas.rs)", "Pixel.tla transcription of sw-composite's blend/over_in/lerp (self-checked)",
+                 "shade probe: image/gradient source colours are observed with Src at full coverage"]
+    scs = canvas_gen("C03", v, "frame", 2, 28 if th else 10, salt=seed + 3)
+    scs += canvas_gen("C03", v, "frame", 3, 4, draws=2, simulate=4000 if th else 600, depth=6, seed=seed, salt=seed + 3)
+    scs += canvas_gen("C03", v, "layer", 3, 3, simulate=2000 if th else 300, depth=6, seed=seed + 1, salt=seed + 3)
+    v.exhaustive = True
+    canvas_validate("C03", v, scs, "all", {"C03"})
+    v.samples = [scs[0], scs[-1]]
+    return v.finish()
+
+
+# ---------------------------------------------------------------------------------------------
+# two-route families (C14, C11)
+# ---------------------------------------------------------------------------------------------
+def routes_validate(pid, v, scs, name):
+    tp = execute(pid, name, scs)
+    t = validate(pid, "Trace_Routes", tp, timeout=3000)
+    v.add_tlc(t)
+    v.evaluations += len(scs)
+    v.traces += len(scs)
+    for tup in t.tuples("NT"):
+        v.nontrivial.add((name, tup[1]))
+    for tup in t.tuples("BAD"):
+        sc = scs[tup[1] - 1]
+        v.violation(sc, {"what": tup[3], "detail": tup[4:], "sig": {"fam": "routes", "what": tup[3]}})
+    return t
+
+
+@prop("C14")
+def c14(tier, seed):
+    v = Verdicts("C14", tier, seed)
+    th = tier == "thorough"
+    v.rule = ("Gen_Routes(fastpath): every integer rectangle x,y in -2..6, w,h in -3..6 on a 4x4 destination of distinct pixels; "
+              "route pair (fill_rect vs fill(rect path) / with vs without covering clip / clear with vs without clip / "
+              "draw_image_at vs fill_rect with translated image), blend mode, source and alpha by hash (all four pairs when thorough); "
+              "non-trivial = something was drawn")
+    v.trusted = ["harness interpreter (harness/src/canvas.rs run_routes)"]
+    g, scs = gen_scenarios("C14", "Gen_Routes", env={"KIND": "fastpath", "NVAR": 12 if th else 4, "SALT": seed,
+                                                       "XMIN": -2, "XMAX": 6, "WMIN": -3, "WMAX": 6}, timeout=1200)
+    v.add_tlc(g)
+    v.exhaustive = True
+    routes_validate("C14", v, scs, "all")
+    v.samples = [scs[0], scs[len(scs) // 3], scs[-1]]
+    return v.finish()
+
+
+@prop("C11")
+def c11(tier, seed):
+    v = Verdicts("C11", tier, seed)
+    th = tier == "thorough"
+    v.rule = ("Gen_Routes(xform): transform menu (translations, scales, rotations incl. 3-4-5 and 5-12-13, shear, general, singular) x "
+              "shape menu (polygons and curves) x route (fill under T vs fill of Path::transform(T); clip rect / mask / surface copies under T vs identity; "
+              "singular T vs nothing); Gen_Canvas(xform): histories with lattice transforms validated by the C02/C03 predicates with the geometry mapped by T, "
+              "and get_transform compared after every call; non-trivial = something drawn")
+    v.trusted = ["harness interpreter (harness/src/canvas.rs)", "Coverage.tla / Pixel.tla for the canvas part"]
+    g, scs = gen_scenarios("C11", "Gen_Routes", env={"KIND": "xform", "NVAR": 6 if th else 2, "NK": 12 if th else 6, "SALT": seed}, timeout=1200)
+    v.add_tlc(g)
+    v.exhaustive = True
+    routes_validate("C11", v, scs, "routes")
+    scs2 = canvas_gen("C11", v, "xform", 2, 28 if th else 8, salt=seed)
+    scs2 += canvas_gen("C11", v, "xform", 3, 3, draws=2, simulate=3000 if th else 500, depth=6, seed=seed, salt=seed)
+    canvas_validate("C11", v, scs2, "canvas", {"C11T", "C02", "C03", "C02N"})
+    v.samples = [scs[0], scs[-1], scs2[0]]
+    return v.finish()
+
+
+@prop("C05")
+def c05(tier, seed):
+    v = Verdicts("C05", tier, seed)
+    th = tier == "thorough"
+    v.rule = ("Gen_Canvas(clip): every properly nested history of pushes/pops of 11 clip rectangles (overlapping, disjoint, inverted, "
+              "off-surface, covering) and 5 clip paths and two transforms to depth D, followed by drawing calls; the specification keeps the whole "
+              "stack and every drawn pixel is validated against Allowed under the intersection/product of all of it; simulation adds depth 4-5 "
+              "histories with layers; non-trivial = the surface changed")
+    v.trusted = ["harness interpreter (harness/src/canvas.rs)", "Coverage.tla for clip path coverage", "Pixel.tla"]
+    scs = canvas_gen("C05", v, "clip", 2, 12 if th else 5, salt=seed)
+    scs += canvas_gen("C05", v, "clip", 3, 2 if th else 1, salt=seed + 1) if th else []
+    scs += canvas_gen("C05", v, "clip", 5, 3, draws=2, simulate=5000 if th else 900, depth=9, seed=seed, salt=seed)
+    v.exhaustive = True
+    canvas_validate("C05", v, scs, "all", {"C02", "C03", "C02N", "C06D"})
+    v.samples = [scs[0], scs[-1]]
+    return v.finish()
+
+
+@prop("C06")
+def c06(tier, seed):
+    v = Verdicts("C06", tier, seed)
+    th = tier == "thorough"
+    v.rule = ("Gen_Canvas(layer): properly nested histories of push_layer (5 opacities x 28 blend modes), clip rects at offsets / disjoint / "
+              "inverted, clip paths and a transform, with drawing calls (incl. clear) inside; every open layer has a shadow target "
+              "(transparent, same transform and clip) so the popped layer's content is observed, and pop_layer is validated as "
+              "Composite(blend, layer pixel, previous, opacity, clip); the visible surface must not change while a layer is open; depths and "
+              "transform are compared after every call; non-trivial = the surface changed")
+    v.trusted = ["harness interpreter and shadow targets (harness/src/canvas.rs)", "Pixel.tla", "Coverage.tla"]
+    scs = canvas_gen("C06", v, "layer", 2, 10 if th else 4, salt=seed)
+    scs += canvas_gen("C06", v, "layer", 5, 3, draws=3, simulate=5000 if th else 900, depth=10, seed=seed, salt=seed)
+    v.exhaustive = True
+    canvas_validate("C06", v, scs, "all", {"C03", "C06L", "C06D", "C11T", "C02", "C02N", "C07"},
+                    only_panic_ops={"push_layer", "pop_layer"})
+    v.samples = [scs[0], scs[-1]]
+    return v.finish()
+
+
+@prop("C10")
+def c10(tier, seed):
+    v = Verdicts("C10", tier, seed)
+    th = tier == "thorough"
+    v.rule = ("Gen_Canvas(history): histories of up to 3-4 drawing calls over shapes of very different vertical extents (tall, sliver, "
+              "off-surface, empty, first op LineTo), zero-width strokes, singular transforms, off-surface clip paths; every drawing call at layer "
+              "depth 0 is replayed on a fresh target with the same pixels and re-established transform/clips and must give identical pixels; "
+              "layer groups are replayed as a whole; the rasteriser-idle hook must hold after every call; non-trivial = the surface changed")
+    v.trusted = ["harness interpreter, state re-establishment (harness/src/canvas.rs)", "cfg(raqote_verif) idle hook"]
+    scs = canvas_gen("C10", v, "history", 1, 6 if th else 3, draws=3, salt=seed)
+    scs += canvas_gen("C10", v, "history", 4, 4, draws=4, simulate=6000 if th else 350, depth=10, seed=seed, salt=seed)
+    v.exhaustive = True
+    canvas_validate("C10", v, scs, "all", {"C10", "C10I"})
+    v.samples = [scs[0], scs[-1]]
     return v.finish()
